@@ -254,10 +254,8 @@ Definition ispace (c : rcase) (x : sp) : list item * list (N * N) :=
 
 Fixpoint increasing (l : list N) : bool :=
   match l with a :: (b :: _) as t => (a <? b) && increasing t | _ => true end.
-(* D02: the live import items of a space, in index-space order, are not in import-section order *)
-Definition known_D02 (c : rcase) : bool :=
-  existsb (fun x => negb (increasing (flat_map (fun i => match it_imp i with Some k => if it_del i then [] else [k] | None => [] end)
-                                               (fst (ispace c x))))) [SF; SG; SM].
+(* D02 (the live import items of a space, in index-space order, were not in import-section order) is repaired: the
+   import section is emitted in index order; the class is gone.  [increasing] is still used by Proofs/ReidxInv.v. *)
 Definition moved (c : rcase) (x : sp) (id : N) : bool :=
   negb (optN_eqb (lookup (snd (ispace c x)) id) (Some id)).
 (* D05 (and formerly D03, repaired: global exports are re-indexed now): a copied (never re-indexed) reference
@@ -291,25 +289,25 @@ Definition binds_ok (x : sp) (c : rcase) : bool := sites_bound c x && valid_ok c
 
 Definition verdict06 (c : rcase) : Util.verdict :=
   (agree c, in_domain c && has_site c SF, binds_ok SF c && live_exact c SF,
-   cls c [K 2 known_D02; K 5 known_D05]).
+   cls c [K 5 known_D05]).
 Definition verdict07 (c : rcase) : Util.verdict :=
   (agree c, in_domain c && has_site c SG, binds_ok SG c && live_exact c SG,
-   cls c [K 2 known_D02; K 5 known_D05]).
+   cls c [K 5 known_D05]).
 Definition verdict08 (c : rcase) : Util.verdict :=
   (agree c, in_domain c && has_site c SM, binds_ok SM c && live_exact c SM,
-   cls c [K 2 known_D02; K 5 known_D05]).
+   cls c [K 5 known_D05]).
 Definition is_delete o := match o with Delete _ _ | DeleteExport _ => true | _ => false end.
 Definition verdict09 (c : rcase) : Util.verdict :=
   (agree c, in_domain c && hist_has c is_delete,
    forallb (fun x => sites_bound c x && live_exact c x) [SF; SG; SM] && valid_ok c && negb (ss_coll (spec_final c)),
-   cls c [K 2 known_D02; K 5 known_D05]).
+   cls c [K 5 known_D05]).
 Definition verdict10 (c : rcase) : Util.verdict :=
   (agree c, in_domain c && hist_has c is_i2l, binds_ok SF c && live_exact c SF,
-   cls c [K 2 known_D02; K 5 known_D05]).
+   cls c [K 5 known_D05]).
 Definition is_l2i o := match o with LocalToImport _ _ => true | _ => false end.
 Definition verdict11 (c : rcase) : Util.verdict :=
   (agree c, in_domain c && hist_has c is_l2i, binds_ok SF c && live_exact c SF,
-   cls c [K 2 known_D02; K 5 known_D05]).
+   cls c [K 5 known_D05]).
 Definition verdict05 (c : rcase) : Util.verdict :=
   (agree c, negb (o_api_panic c) && encoded c, o_same2 c, cls c [K 1 known_D01]).
 
